@@ -24,6 +24,7 @@ type LoopSpec struct {
 	Invariants []*Clause
 	Decreases  *Clause
 	Assigns    []*Clause
+	HasAssign  bool
 }
 
 type FuncSpec struct {
@@ -38,6 +39,9 @@ type FuncSpec struct {
 	NoInline  bool
 	Opaque    bool // callers see only contract even if small
 	Flags     map[string]string
+	Lets      []*Clause // Kind holds the bound name
+	PanicOK   []string  // anchors (substrings) of panic sites this contract allows
+	Extends   string    // name of the contract whose clauses are inherited
 	File      string
 	Line      int
 }
@@ -78,7 +82,7 @@ func NewSpecFile() *SpecFile {
 
 var clauseKeywords = map[string]bool{"requires": true, "ensures": true, "invariant": true, "decreases": true,
 	"assigns": true, "loop": true, "may_panic": true, "trusted": true, "pure": true, "abstract": true, "axiom": true,
-	"func": true, "noinline": true, "opaque": true, "flag": true}
+	"func": true, "noinline": true, "opaque": true, "flag": true, "let": true, "may_panic_at": true, "extends": true}
 
 // ParseSpecFile reads //@ lines from path and adds them to sf.
 func (sf *SpecFile) ParseSpecFile(path string) error {
@@ -169,6 +173,7 @@ func (sf *SpecFile) ParseSpecFile(path string) error {
 				c.Idx = len(cur.Requires) + 1
 				cur.Requires = append(cur.Requires, c)
 			case "ensures":
+				curLoop = nil // function-level clauses end the loop block
 				c, err := parse("ensures")
 				if err != nil {
 					return err
@@ -215,12 +220,17 @@ func (sf *SpecFile) ParseSpecFile(path string) error {
 				}
 				if curLoop != nil {
 					curLoop.Assigns = append(curLoop.Assigns, cs...)
+					curLoop.HasAssign = true
 				} else {
 					cur.Assigns = append(cur.Assigns, cs...)
 					cur.HasAssign = true
 				}
 			case "may_panic":
 				cur.MayPanic = true
+			case "may_panic_at":
+				cur.PanicOK = append(cur.PanicOK, strings.TrimSpace(r.text))
+			case "extends":
+				cur.Extends = strings.TrimSpace(r.text)
 			case "trusted":
 				cur.Trusted = true
 			case "noinline":
@@ -230,6 +240,16 @@ func (sf *SpecFile) ParseSpecFile(path string) error {
 			case "flag":
 				k, v, _ := strings.Cut(strings.TrimSpace(r.text), "=")
 				cur.Flags[strings.TrimSpace(k)] = strings.TrimSpace(v)
+			case "let":
+				k, v, ok := strings.Cut(r.text, "=")
+				if !ok {
+					return fmt.Errorf("%s: let needs 'name = expr'", loc)
+				}
+				e, err := ParseSpecExpr(v)
+				if err != nil {
+					return fmt.Errorf("%s: %v in %q", loc, err, v)
+				}
+				cur.Lets = append(cur.Lets, &Clause{Kind: strings.TrimSpace(k), Text: v, Expr: e, Line: r.line, File: path})
 			}
 		}
 	}
@@ -734,10 +754,15 @@ func (p *sparser) parsePrimary() (SExpr, error) {
 					pending = append(pending, n.s)
 					continue
 				}
-				ty := p.next()
-				if ty.k != "ident" {
+				// a type: tokens up to the next ',' or '::' (e.g. []zoekt.LineMatch, *T)
+				var tyText string
+				for !(p.isOp(",") || p.isOp("::") || p.peek().k == "eof") {
+					tyText += p.next().s
+				}
+				if tyText == "" {
 					return nil, fmt.Errorf("expected type of bound variable %s", n.s)
 				}
+				ty := tok{"ident", tyText}
 				for _, pn := range pending {
 					vars = append(vars, ParamDecl{pn, ty.s})
 				}
